@@ -575,7 +575,7 @@ UNITS = [StatUnit(), CsvUnit()]
 
 def run(tier):
     return corr.standard_run(
-        "C19", tier, UNITS, {"genstat": 90, "gencsv": 90}, {"genstat": 1500, "gencsv": 1500},
+        "C19", tier, UNITS + [__import__("c07").UNIT], {"genstat": 90, "gencsv": 90, "events": 200}, {"genstat": 1500, "gencsv": 1500, "events": 2000},
         trusted=["hand-written Coq models Gen.v of the trip loops of generate_from_statistics.py (per-vehicle projection; "
                  "random trips recorded from generate_trip as an input stream) and generate_from_csv.py",
                  "generate_from_simbev.py, the price-signal generation and the scenario/components glue are not modelled "
@@ -589,6 +589,8 @@ def run(tier):
 
 def replay(payload):
     case = payload["input"]["case"]
+    if payload["input"].get("unit") in ("events", "weekly"):
+        return __import__("c07").replay(payload)
     if payload["input"]["unit"] == "simbev":
         return check_simbev(C.unjson(case))[0]
     u = {u.name: u for u in UNITS}[payload["input"]["unit"]]
